@@ -44,6 +44,42 @@ theorem classify_sound {b : UInt8} {k : Kind} (h : classify b = some k) : k.byte
 theorem classify_b_of {b : UInt8} {k : Kind} (h : classify b = some k) : k.b = b := by
   simp [Kind.b, classify_sound h]
 
+theorem classifyC_b (cfg : DecCfg) (k : Kind) (h : k.byte ≠ none) (hv : k.isV2 = true → cfg.v2 = true) :
+    classifyC cfg k.b = some k := by
+  unfold classifyC
+  rw [classify_b k h]
+  cases hk : k.isV2
+  · simp [hk]
+  · simp [hk, hv hk]
+
+@[simp] theorem std_utf8 : DecCfg.std.utf8 = true := rfl
+@[simp] theorem lax_utf8 : DecCfg.lax.utf8 = false := rfl
+@[simp] theorem legacy_utf8 : DecCfg.legacy.utf8 = true := rfl
+@[simp] theorem std_v2 : DecCfg.std.v2 = true := rfl
+@[simp] theorem lax_v2 : DecCfg.lax.v2 = true := rfl
+@[simp] theorem legacy_v2 : DecCfg.legacy.v2 = false := rfl
+
+theorem classifyC_of_v2 (cfg : DecCfg) (h : cfg.v2 = true) (b : UInt8) : classifyC cfg b = classify b := by
+  unfold classifyC
+  cases classify b <;> simp [h]
+
+@[simp] theorem classifyC_lax (b : UInt8) : classifyC .lax b = classify b := classifyC_of_v2 _ rfl b
+@[simp] theorem classifyC_std (b : UInt8) : classifyC .std b = classify b := classifyC_of_v2 _ rfl b
+
+theorem classifyC_some {cfg : DecCfg} {b : UInt8} {k : Kind} (h : classifyC cfg b = some k) :
+    classify b = some k ∧ (k.isV2 = true → cfg.v2 = true) := by
+  unfold classifyC at h
+  cases hc : classify b with
+  | none => simp [hc] at h
+  | some k' =>
+    simp only [hc] at h
+    split at h
+    · simp at h
+    · rename_i hn
+      simp at h; subst h
+      refine ⟨rfl, ?_⟩
+      intro hk; simp [hk] at hn; exact hn
+
 theorem none_ne_some_b : Kind.none.b ≠ Kind.some.b := by decide
 
 theorem maxDepth_eq : maxValueDepth = 32 := by decide
